@@ -505,6 +505,25 @@ class Ref:
                     from .model import real as _real
                     r = Num("int", z3.ToInt(_real(r)))       # the function of that name returns an integer
                 return r
+            if name in ("int", "float", "max", "min") and n.args and not n.keywords:
+                # python builtins (not promised by the documentation; modelled so that an implementation that accepts them is checked)
+                a = [self.ev_(x, env, g) for x in n.args]
+                if not all(isinstance(x, Num) for x in a):
+                    raise RefUnsupported(f"builtin {name} on non-numbers")
+                from .model import real as _real, toint as _toint
+                if name == "float" and len(a) == 1:
+                    return Num("double", _real(a[0]))
+                if name == "int" and len(a) == 1:
+                    if a[0].kind in ("int", "bool"):
+                        return Num("int", _toint(a[0]))
+                    x = _real(a[0])
+                    return Num("int", z3.If(x >= 0, z3.ToInt(x), -z3.ToInt(-x)))     # truncation toward zero
+                if name in ("max", "min") and len(a) == 2:
+                    kind = "int" if all(x.kind in ("int", "bool") for x in a) else "double"
+                    x, y = ((_toint(a[0]), _toint(a[1])) if kind == "int" else (_real(a[0]), _real(a[1])))
+                    pick = (x >= y) if name == "max" else (x <= y)
+                    # python returns the chosen OPERAND (its own kind); as a column value that is its number
+                    return Num(kind, z3.If(pick, x, y))
             raise RefUnsupported(f"function {name}")
         if isinstance(f, ast.Attribute):
             if f.attr in LINQ:
